@@ -664,3 +664,189 @@ def replay_c14_diff(args):
                 if (RK(a) == RK(b)) != (OK(a) == OK(b)):
                     bad.append(("eq", a, b))
     return (len(bad) > 0), "c14_diff %s %s: %d mismatches; first %s" % (curve, kind, len(bad), str(bad[:1])[:300])
+
+
+# ---------------------------------------------------------------------------
+# C11: independent ZCash-format oracle for G1
+
+_Q381 = 4002409555221667393417789825735904156556882819939007885332058136124031650490837864442687629129015664037894272559787
+
+
+def zcash_decode_g1(z):
+    """returns ("inf",) / ("pt", x, y) / ("reject", why); independent transcription of the format."""
+    q = _Q381
+    if not 0 <= z < 2 ** 384:
+        z = z % 2 ** 384 if z >= 0 else z
+    c, b, a = (z >> 383) & 1, (z >> 382) & 1, (z >> 381) & 1
+    x = z % 2 ** 381
+    if c != 1:
+        return ("reject", "c")
+    if b == 1:
+        if a or x:
+            return ("reject", "inf bits")
+        return ("inf",)
+    if x >= q:
+        return ("reject", "x>=q")
+    t = (x ** 3 + 4) % q
+    y = pow(t, (q + 1) // 4, q)
+    if y * y % q != t:
+        return ("reject", "nonresidue")
+    if (2 * y) // q != a:
+        y = q - y
+    return ("pt", x, y % q)
+
+
+def zcash_encode_g1(P):
+    q = _Q381
+    if P is None:
+        return 2 ** 383 + 2 ** 382
+    x, y = P
+    return x + ((2 * y) // q) * 2 ** 381 + 2 ** 383
+
+
+def _g1_words(model):
+    q = _Q381
+    ws = []
+    for k in ("z", "z1"):
+        if k in (model or {}):
+            ws.append(int(model[k]))
+    return ws
+
+
+def replay_c11_g1(args):
+    from py_ecc.bls import point_compression as pc
+    q = _Q381
+    bad = []
+    for z in _g1_words(args.get("model")):
+        exp = zcash_decode_g1(z)
+        try:
+            pt = pc.decompress_G1(z)
+            if int(pt[2]) == 0:
+                got = ("inf",)
+            else:
+                zi = pow(int(pt[2]), -1, q)
+                got = ("pt", int(pt[0]) * zi % q, int(pt[1]) * zi % q)
+            if pc.compress_G1(pt) != z % 2 ** 384 and z < 2 ** 384:
+                bad.append(("not canonical", z))
+        except ValueError as e:
+            got = ("reject", str(e))
+        except Exception as e:
+            got = ("other exception", repr(e))
+        if got[0] != exp[0] or (got[0] == "pt" and got != exp):
+            bad.append((hex(z)[:24], got[:1], exp))
+    return (len(bad) > 0), "c11_g1: %d mismatches; first %s" % (len(bad), str(bad[:2])[:300])
+
+
+def replay_c11_g1_point(args):
+    """round trip of curve points with the given x (and small x values) through the real codec."""
+    from py_ecc.bls import point_compression as pc
+    from py_ecc.optimized_bls12_381 import FQ
+    q = _Q381
+    bad = []
+    xs = [int(args.get("x", 1)) % q]
+    if "y" in args:
+        # compress_G1 is defined on any affine pair: its sign flag must be "y is the larger root" for the model's y
+        x0, y0 = xs[0], int(args["y"]) % q
+        try:
+            if pc.compress_G1((FQ(x0), FQ(y0), FQ(1))) != zcash_encode_g1((x0, y0)):
+                bad.append(("encoding of (x, y) differs from the format", x0, y0))
+        except Exception as e:
+            bad.append((repr(e)[:80], x0, y0))
+    for x in xs:
+        t = (x ** 3 + 4) % q
+        y = pow(t, (q + 1) // 4, q)
+        if y * y % q != t:
+            continue
+        for yy in (y, q - y):
+            for lam in (1, 7):
+                pt = (FQ(x * lam), FQ(yy * lam), FQ(lam))
+                try:
+                    z = pc.compress_G1(pt)
+                    back = pc.decompress_G1(z)
+                    if z != zcash_encode_g1((x, yy % q)):
+                        bad.append(("encoding differs from the format", x, yy))
+                    zi = pow(int(back[2]), -1, q)
+                    if (int(back[0]) * zi % q, int(back[1]) * zi % q) != (x, yy % q):
+                        bad.append(("roundtrip", x, yy))
+                except Exception as e:
+                    bad.append((repr(e)[:80], x, "y_is_larger=%s" % ((2 * yy) // q)))
+    return (len(bad) > 0), "c11_g1_point: %d failures; first %s" % (len(bad), str(bad[:2])[:300])
+
+
+def _fq2_mul(a, b, q):
+    return ((a[0] * b[0] - a[1] * b[1]) % q, (a[0] * b[1] + a[1] * b[0]) % q)
+
+
+def _fq2_sqrt(v, q):
+    """a square root of v in F_q[i]/(i^2+1), q == 3 mod 4, or None (independent of py_ecc)."""
+    a, b = v[0] % q, v[1] % q
+    if b == 0:
+        r = pow(a, (q + 1) // 4, q)
+        if r * r % q == a:
+            return (r, 0)
+        r = pow(-a % q, (q + 1) // 4, q)
+        if r * r % q == (-a) % q:
+            return (0, r)
+        return None
+    n = (a * a + b * b) % q
+    s = pow(n, (q + 1) // 4, q)
+    if s * s % q != n:
+        return None
+    for sg in (s, -s % q):
+        t = (a + sg) * pow(2, -1, q) % q
+        x = pow(t, (q + 1) // 4, q)
+        if x * x % q == t and x:
+            y = b * pow(2 * x, -1, q) % q
+            if _fq2_mul((x, y), (x, y), q) == (a, b):
+                return (x, y)
+    return None
+
+
+def zcash_decode_g2(z1, z2):
+    q = _Q381
+    c, b, a = (z1 >> 383) & 1, (z1 >> 382) & 1, (z1 >> 381) & 1
+    x1 = z1 % 2 ** 381
+    if c != 1:
+        return ("reject", "c")
+    if b == 1:
+        if a or x1 or z2:
+            return ("reject", "inf bits")
+        return ("inf",)
+    if x1 >= q or z2 >= q:
+        return ("reject", "range")
+    x = (z2, x1)
+    x3 = _fq2_mul(_fq2_mul(x, x, q), x, q)
+    v = ((x3[0] + 4) % q, (x3[1] + 4) % q)
+    y = _fq2_sqrt(v, q)
+    if y is None:
+        return ("reject", "nonresidue")
+    big = (2 * y[1]) // q if y[1] > 0 else (2 * y[0]) // q
+    if big != a:
+        y = (-y[0] % q, -y[1] % q)
+    return ("pt", x, y)
+
+
+def replay_c11_g2(args):
+    from py_ecc.bls import point_compression as pc
+    q = _Q381
+    m = args.get("model") or {}
+    z1, z2 = int(m.get("z1", 0)), int(m.get("z2", 0))
+    bad = []
+    pairs = [(z1, z2)]
+    for (w1, w2) in pairs:
+        exp = zcash_decode_g2(w1, w2)
+        try:
+            pt = pc.decompress_G2((w1, w2))
+            if [int(c) for c in pt[2].coeffs] == [0, 0]:
+                got = ("inf",)
+            else:
+                got = ("pt", tuple(int(c) for c in pt[0].coeffs), tuple(int(c) for c in pt[1].coeffs))
+            if tuple(pc.compress_G2(pt)) != (w1, w2):
+                bad.append(("not canonical", hex(w1)[:20], hex(w2)[:20]))
+        except ValueError as e:
+            got = ("reject", str(e))
+        except Exception as e:
+            got = ("other exception", repr(e))
+        if got[0] != exp[0] or (got[0] == "pt" and got != exp):
+            bad.append((hex(w1)[:24], hex(w2)[:24], got[:1], exp[:1]))
+    return (len(bad) > 0), "c11_g2: %d mismatches; first %s" % (len(bad), str(bad[:2])[:300])
